@@ -11,7 +11,6 @@ import (
 
 	"golang.org/x/crypto/ssh"
 
-	"github.com/theparanoids/ysshra/keyid"
 	certutil "github.com/theparanoids/ysshra/sshutils/cert"
 	"github.com/theparanoids/ysshra/verifharness/lib/ev"
 	"github.com/theparanoids/ysshra/verifharness/lib/gen"
@@ -104,9 +103,12 @@ func suffix(p []string, s string) []string {
 }
 
 func mkCert(a attrs, transID string, prins []string, reqUser string) *ssh.Certificate {
-	k := keyid.KeyID{Principals: prins, TransID: transID, ReqUser: reqUser, ReqIP: "10.1.2.3", ReqHost: "h",
-		IsFirefighter: a.FF, IsHWKey: a.HW, IsHeadless: a.Headless, IsNonce: a.Nonce, Usage: keyid.Usage(a.Usage), TouchPolicy: keyid.TouchPolicy(a.Touch), Version: 1}
-	b, _ := json.Marshal(&k)
+	// the KeyID text is written out by the harness itself (not through the codec's own types, whose widths are part of what is being checked)
+	pj, _ := json.Marshal(prins)
+	tj, _ := json.Marshal(transID)
+	uj, _ := json.Marshal(reqUser)
+	b := []byte(fmt.Sprintf(`{"prins":%s,"transID":%s,"reqUser":%s,"reqIP":"10.1.2.3","reqHost":"h","isFirefighter":%v,"isHWKey":%v,"isHeadless":%v,"isNonce":%v,"usage":%d,"touchPolicy":%d,"ver":1}`,
+		pj, tj, uj, a.FF, a.HW, a.Headless, a.Nonce, a.Usage, a.Touch))
 	c := &ssh.Certificate{KeyId: string(b), ValidPrincipals: prins}
 	// everything else about the certificate is irrelevant to its type, label and principals: varied
 	// (determined by the KeyID text, so that a case replays identically)
@@ -151,7 +153,7 @@ func main() {
 		ring := ev.NewRing("GetType/Label/GetPrincipals", r.Seed, 23)
 		typesSeen := map[int]int{}
 		for fl := 0; fl < 16; fl++ {
-			for _, tp := range []int{-1, 0, 1, 2, 3, 4} {
+			for _, tp := range []int{-1, 0, 1, 2, 3, 4, 255, 256, -128, 65536, 1 << 40} {
 				for us := 0; us < 2; us++ {
 					for opt := 0; opt < 5; opt++ {
 						a := attrs{FF: fl&1 != 0, HW: fl&2 != 0, Headless: fl&4 != 0, Nonce: fl&8 != 0, Touch: tp, Usage: us, Opt: opt}
